@@ -168,6 +168,45 @@ fn main() {
 			h.go(&sys, &Limits::deviation(if thorough { 1 } else { 0 }, if thorough { 520 } else { 700 }).wall_secs(600), true);
 			tally!(sys);
 		}
+		// (9) pairs of one length and one float parameter (thresholds scaled by a length, factors applied to
+		// a window): every combination of the mid-range lengths with the float values, steady / zigzag /
+		// volatile streams without deviation
+		{
+			let map = ind::json_map(&c.to_json().unwrap());
+			let ints: Vec<(&String, Vec<String>)> = map
+				.iter()
+				.filter_map(|(k, v)| {
+					if v.is_u64() {
+						Some((k, ["3", "20", "25", "100"].iter().map(|s| s.to_string()).collect()))
+					} else if let Some(o) = v.as_object() {
+						let kind = o.keys().next().unwrap().clone();
+						let kind = if kind == "lin_reg" { "linreg".to_string() } else { kind };
+						Some((k, ["3", "20", "25", "100"].iter().map(|n| format!("{kind}-{n}")).collect()))
+					} else {
+						None
+					}
+				})
+				.collect();
+			let floats: Vec<&String> = map.iter().filter(|(_, v)| v.is_f64()).map(|(k, _)| k).collect();
+			let mut cfgs = vec![];
+			for (ik, its) in &ints {
+				for fk in &floats {
+					for it in its {
+						for ft in ["0.01", "0.44", "0.45", "0.9", "2.5"] {
+							let mut x = c.boxed_clone();
+							if x.set(ik, it.clone()).is_ok() && x.set(fk, ft.to_string()).is_ok() && x.validate() {
+								cfgs.push(x);
+							}
+						}
+					}
+				}
+			}
+			if !cfgs.is_empty() {
+				let sys = IndSys::new(&format!("{name}/deviation/length-x-float-pairs"), cfgs, vec![ks[1]], vec![ks[1], ks[2]], oracle, true).with_zigzag().with_volatile();
+				h.go(&sys, &Limits::deviation(0, if thorough { 700 } else { 420 }).wall_secs(600), true);
+				tally!(sys);
+			}
+		}
 	}
 	if !missing.is_empty() {
 		h.run.machinery_error(format!("no reference model for: {missing:?}"));
